@@ -1605,7 +1605,23 @@ class C17(UciCheck):
             "castling, e.p. or a promotion")
 
     def streams(self):
-        return []
+        req = os.path.join(self.wd, "ucimoves.req")
+        vlib.gen_requests(["ucimoves", self.seed + 17, self.n(600, 20000)], req)
+        yield "ucimoves", req
+
+    def judge(self, req, impl, model, spec):
+        text = "\t".join(req.split("\t")[1:])
+        corr = None if impl == model else f"move-list reader differs from the model on {text!r}: impl {impl[:120]} model {model[:120]}"
+        oracle = None
+        feats = ["ucimoves"]
+        if impl in ("panic", "crash"):
+            oracle = f"move-list reader crashes on {text!r}"
+        elif impl.startswith("ok ") and re.fullmatch(r"([a-h][1-8][a-h][1-8][nbrq]?)( [a-h][1-8][a-h][1-8][nbrq]?)*", text):
+            feats.append("well-formed")
+            m = re.match(r"ok \[(.*?)\] rest=\[(.*)\]$", impl)
+            if not m or m.group(1) != text or m.group(2) != "":
+                oracle = f"well-formed move list {text!r} is read as {impl[:200]}"
+        return corr, oracle, feats, text
 
     def extra_phase(self, harness_bin):
         binary = vlib.build_engine("release")
